@@ -75,4 +75,6 @@ def c23_three_part_range_order(case, what):
 
 @known_predicate
 def c23_fewer_subscripts_linear_index(case, what):
-    return fewer_subscripts(case) and not has_three_part(case) and (what.startswith(ACCEPTED) or what.startswith(DIFFERENT))
+    # since b779a95 the single subscript is range-checked against the first dimension, so the finding only shows
+    # as a wrong selection, never as an accepted out-of-range subscript
+    return fewer_subscripts(case) and not has_three_part(case) and what.startswith(DIFFERENT)
